@@ -9,7 +9,7 @@ Next == SNext
 Emit == svec # <<>> =>
           PrintT(<<"VEC", ToJson([eco |-> svec.eco, construct |-> svec.construct, text |-> svec.text,
                                   ivs |-> svec.ivs, neg |-> svec.neg,
-                                  probes |-> SetToSeq({[t |-> VText(svec.eco, p), p |-> p] : p \in ProbesOf(svec)})])>>)
+                                  probes |-> SetToSeq({[t |-> VTextF(svec.eco, p, svec.fam), p |-> p] : p \in ProbesOf(svec)})])>>)
 \* design-level sanity of the table: every row contains its own base and excludes its upper bound
 RowSane == svec # <<>> /\ ~svec.neg =>
              \A k \in 1..Len(svec.ivs) :
